@@ -4,6 +4,7 @@ Theorems about `Just.Eval` (model of src/evaluator.rs).
 -/
 import Just.Model.Eval
 import Just.Lemmas.EvalOnce
+import Just.Lemmas.Path
 namespace Just.Props.C04
 open Just Just.Eval
 
@@ -499,5 +500,64 @@ example : Ranked (fun n => if n = "a" then 2 else if n = "b" then 1 else 0)
         have h2 : (x == "b") = false := by simpa using hb
         have h3 : (x == "c") = false := by simpa using hc
         simp [List.lookup, h1, h2, h3] at hx
+
+/-! ### `clean()`: lexical path cleaning (model `Just.Path` of `Path::components`, the lexiclean crate and `PathBuf`) -/
+section Clean
+open Just.Path
+
+/-- **a cleaned path has nothing left to clean**: for every path text `p`, cleaning the cleaned
+component list again changes nothing -/
+theorem clean_idempotent (p : List Char) :
+    cleanComps (cleanComps (components p)) = cleanComps (components p) := by
+  have hs := clean_shape (components p) (components_noInnerRoot p)
+  unfold cleanComps
+  rw [List.foldl_reverse]
+  rw [foldr_fixed _ hs]
+
+/-- **what `clean` removes** (README: "removing extra path separators, intermediate `.` components,
+and `..` where possible"): the result holds no `.` component, the root only in first place, and no
+`..` that follows a name or the root — every `..` left stands at the very front of a relative path,
+where there is nothing it could cancel -/
+theorem clean_result (p : List Char) :
+    .cur ∉ cleanComps (components p) ∧
+    (∀ c ∈ (cleanComps (components p)).tail, c ≠ .root) ∧
+    (∀ pre a post, cleanComps (components p) = pre ++ a :: .parent :: post → a = .parent) := by
+  have hs := clean_shape (components p) (components_noInnerRoot p)
+  refine ⟨?_, ?_, ?_⟩
+  · unfold cleanComps
+    intro h
+    exact shape_no_cur _ hs (List.mem_reverse.mp h)
+  · unfold cleanComps
+    intro c hc
+    have := shape_root_only_last _ hs c
+    apply this
+    rw [List.tail_reverse] at hc
+    exact List.mem_reverse.mp hc
+  · intro pre a post heq
+    unfold cleanComps at heq
+    have hacc : (components p).foldl cleanStep [] = post.reverse ++ .parent :: a :: pre.reverse := by
+      have := congrArg List.reverse heq
+      simpa using this
+    rw [hacc] at hs
+    clear hacc heq
+    -- walk down to the `..`
+    have key : ∀ (x : List Comp), shapeN (x ++ Comp.parent :: a :: pre.reverse) = true → a = .parent := by
+      intro x
+      induction x with
+      | nil =>
+        intro h
+        cases a with
+        | parent => rfl
+        | normal s => simp [shapeN, shapeP] at h
+        | root => simp [shapeN, shapeP] at h
+        | cur => simp [shapeN, shapeP] at h
+      | cons c rest ih => intro h; exact ih (shapeN_tail c _ h)
+    exact key _ hs
+
+/-- non-vacuity: `a/./b/../../..//c` has all of it: it cleans to `../c` -/
+example : cleanFn "a/./b/../../..//c".toList = "../c".toList ∧ cleanFn "foo/..".toList = ".".toList ∧
+    cleanFn "/a/../..".toList = "/".toList := by decide
+
+end Clean
 
 end Just.Props.C04
